@@ -78,6 +78,7 @@ pub fn plan(tier: &str, seed: u64) -> Vec<Batch> {
             v.push(Batch { check: "C06".into(), phase: "static".into(), uni: uni.clone(), seed, lo: i * PER_BATCH, hi: (i + 1) * PER_BATCH, fresh: false, tier: tier.into(), extra: Value::Null });
         }
         if ui < 2 {
+            v.push(Batch { check: "C06".into(), phase: "canonical".into(), uni: uni.clone(), seed, lo: 0, hi: canonical_cases(&uni).len() as u64, fresh: false, tier: tier.into(), extra: Value::Null });
             let nm = race_matrix().len() as u64;
             let mut lo = 0;
             while lo < nm {
@@ -149,6 +150,38 @@ pub fn gen_case(seed: u64, idx: u64, uni: &UniCfg) -> Case {
     c.jobs = vec![ops];
     c.extra = json!({"ctor": cname, "ctor_before_mounts": ctor_before || ctor.is_none()});
     c
+}
+
+/// fixed layouts that every run covers (the generated ones vary with the seed)
+pub fn canonical_cases(uni: &UniCfg) -> Vec<Case> {
+    let mut v = Vec::new();
+    for (src, dst) in [("nofollow:/mnt/w/outside/to-pid1", "/proc/self"), ("nofollow:/mnt/w/outside/to-abs-pid1", "/proc/self"), ("nofollow:/mnt/w/outside/to-pid1", "/proc/thread-self"), ("nofollow:/proc/thread-self", "/proc/self")] {
+        for (ctor, cname) in [(ProcCtor::FromPlainOpen, "plain-open"), (ProcCtor::FromOpenTreeRec, "open_tree-recursive"), (ProcCtor::New, "new")] {
+            let mut c = Case::new("C06", "canonical", uni.clone());
+            let mut ops = vec![OpSpec::new(Op::Sup { muts: vec![Mutation::MountOn { src: src.into(), dst: dst.into(), nofollow: true }] }), OpSpec::new(Op::ProcNew { ctor, store: 0 })];
+            for (base, path, follow) in [
+                (Base::Root, "net", true),
+                (Base::Root, "mounts", true),
+                (Base::Root, "net/dev", false),
+                (Base::Root, "self", true),
+                (Base::Root, "self/status", false),
+                (Base::SelfP, "status", false),
+                (Base::SelfP, "exe", true),
+                (Base::ThreadSelf, "stat", false),
+                (Base::Root, "thread-self", true),
+            ] {
+                ops.push(OpSpec::new(Op::ProcOpen { handle: Some(0), base, path: path.into(), flags: libc::O_RDONLY | libc::O_NONBLOCK, follow }));
+                if !follow {
+                    ops.push(OpSpec::new(Op::ProcReadlink { handle: Some(0), base, path: path.into(), bufsz: 512 }));
+                }
+            }
+            c.world = Some(warm_world_with_outside());
+            c.jobs = vec![ops];
+            c.extra = json!({"ctor": cname, "ctor_before_mounts": false});
+            v.push(c);
+        }
+    }
+    v
 }
 
 pub fn warm_world_with_outside() -> crate::world::WorldSpec {
@@ -334,7 +367,16 @@ pub fn judge(case: &Case, base: &[(usize, String)], got: &H, op_shift: usize) ->
         let bres = b.split(" => ").nth(1).unwrap_or("");
         let gres = g.split(" => ").nth(1).unwrap_or("");
         if gres.starts_with("ok") {
-            v.push((i + op_shift, "different-object-under-mounts".into(), format!("without mounts: {b}; with mounts: {g}")));
+            // open_follow of an ordinary in-procfs link whose body starts at self/ (net -> self/net,
+            // mounts -> self/mounts) while /proc/self itself is replaced by a *symlink* mounted on
+            // it: the kernel follows the body of the trailing link, unverified (known finding)
+            let self_replaced_by_link = case.jobs[0].iter().any(|o| match &o.op {
+                Op::Sup { muts } => muts.iter().any(|m| matches!(m, Mutation::MountOn { src, dst, .. } if src.starts_with("nofollow:") && (dst == "/proc/self" || dst == "/proc/thread-self"))),
+                _ => false,
+            }) || case.plan.script.iter().any(|d| d.attack.iter().any(|m| matches!(m, Mutation::MountOn { src, dst, .. } if src.starts_with("nofollow:") && (dst == "/proc/self" || dst == "/proc/thread-self"))));
+            let follows_self_link = g.starts_with("follow(\"net\")") || g.starts_with("follow(\"mounts\")") || g.starts_with("follow(\"net/") ;
+            let clause = if self_replaced_by_link && follows_self_link && !private { "different-object-under-mounts:follow-of-link-through-replaced-self" } else { "different-object-under-mounts" };
+            v.push((i + op_shift, clause.into(), format!("without mounts: {b}; with mounts: {g}")));
         } else if private && bres.starts_with("ok") {
             v.push((i + op_shift, "private-handle-affected-by-mounts".into(), format!("handle is backed by a private procfs, yet without mounts: {b}; with mounts: {g}")));
         } else if private {
@@ -560,6 +602,12 @@ pub fn run(u: &mut Universe, b: &Batch, st: &mut Stats) {
             }
             "race" => {
                 if !race_cases(u, b.seed, idx, &b.uni, st) {
+                    return;
+                }
+            }
+            "canonical" => {
+                let case = canonical_cases(&b.uni)[idx as usize].clone();
+                if !run_pair(u, &case, st, false) {
                     return;
                 }
             }
